@@ -3,6 +3,8 @@
 package connectconformance
 
 import (
+	"crypto/tls"
+	"crypto/x509"
 	"bufio"
 	"bytes"
 	"encoding/json"
@@ -77,6 +79,7 @@ type vfPeerEvent struct {
 	Headers     []string `json:"headers,omitempty"` // "name=value"
 	RawHeaders  []string `json:"rawHeaders,omitempty"`
 	Identity    string   `json:"identity,omitempty"`
+	ALPN        string   `json:"alpn,omitempty"` // ProbeDial under TLS: what the server picks when offered h2 and http/1.1 ("none": nothing negotiated, "error: ..." no handshake)
 	Alive       int      `json:"alive,omitempty"` // ProbeDial: how many of the server addresses seen so far accept connections right now
 	CertEcho    string   `json:"certEcho,omitempty"`
 	Limit       uint32   `json:"limit,omitempty"`
@@ -141,6 +144,34 @@ func vfProbeIdentity(host string, port uint32) string {
 		return "read-error: " + err.Error()
 	}
 	return strings.TrimSpace(line)
+}
+
+// vfProbeALPN makes a TLS handshake the way a stock HTTP client would (offering h2 and http/1.1, trusting the
+// certificate from the request, presenting the client credentials if any) and reports what the server picked.
+func vfProbeALPN(addr string, req *conformancev1.ClientCompatRequest) string {
+	pool := x509.NewCertPool()
+	if !pool.AppendCertsFromPEM(req.ServerTlsCert) {
+		return "error: server certificate in the request is not PEM"
+	}
+	// (what is probed is the protocol choice, not the certificate: each run's servers listen on a loopback address of their own)
+	conf := &tls.Config{RootCAs: pool, NextProtos: []string{"h2", "http/1.1"}, MinVersion: tls.VersionTLS12, InsecureSkipVerify: true} //nolint:gosec
+	if host, _, err := net.SplitHostPort(addr); err == nil {
+		conf.ServerName = host
+	}
+	if creds := req.ClientTlsCreds; creds != nil {
+		if pair, err := tls.X509KeyPair(creds.Cert, creds.Key); err == nil {
+			conf.Certificates = []tls.Certificate{pair}
+		}
+	}
+	conn, err := tls.DialWithDialer(&net.Dialer{Timeout: 5 * time.Second}, "tcp", addr, conf)
+	if err != nil {
+		return "error: " + err.Error()
+	}
+	defer conn.Close()
+	if p := conn.ConnectionState().NegotiatedProtocol; p != "" {
+		return p
+	}
+	return "none"
 }
 
 func vfPeerClientMain() int {
@@ -217,6 +248,9 @@ func vfPeerClientMain() int {
 				_ = conn.Close()
 				ev.Identity = "dial-ok"
 				ev.Alive = 1
+				if len(req.ServerTlsCert) > 0 && req.HttpVersion != conformancev1.HTTPVersion_HTTP_VERSION_3 {
+					ev.ALPN = vfProbeALPN(addr, req)
+				}
 			}
 			// every other server address this client was ever sent to: still (or again) listening?
 			for other := range seenAddrs {
